@@ -188,15 +188,20 @@ def _run_one(args):
     import numpy as np
 
     np.seterr(all="ignore")
-    if getattr(_MOD, "ISOLATE_SHARDS", False) and not os.environ.get("VERIF_COVERAGE"):
-        return _run_one_isolated(idx, shard)
-    try:
-        r = _MOD.run_shard(shard)
-        if not isinstance(r, Result):
-            raise HarnessError("run_shard did not return a Result")
-        return idx, r, None
-    except Exception:
-        return idx, None, traceback.format_exc()
+    if getattr(_MOD, "ISOLATE_SHARDS", True) and not os.environ.get("VERIF_COVERAGE"):
+        out = _run_one_isolated(idx, shard)
+    else:
+        try:
+            r = _MOD.run_shard(shard)
+            if not isinstance(r, Result):
+                raise HarnessError("run_shard did not return a Result")
+            out = (idx, r, None)
+        except Exception:
+            out = (idx, None, traceback.format_exc())
+    if out[1] is not None:
+        for v in out[1].viols:
+            v.setdefault("shard", shard)  # the history that reached the violation (for history-faithful replay)
+    return out
 
 
 def _run_one_isolated(idx, shard):
@@ -512,6 +517,7 @@ def write_replay(prop, v):
     body = {
         "property": prop,
         "case": v["case"],
+        "shard": v.get("shard"),
         "msg": v["msg"],
         "replay": "cd /verif && /venv/bin/python -m vf.run %s --replay %s" % (prop, path),
     }
@@ -560,6 +566,16 @@ def main(argv=None):
             mod.setup("replay", seed)
         try:
             msgs = mod.replay(body["case"])
+            if not msgs and body.get("shard") is not None:
+                # the case alone passes: replay the whole shard (the call history that preceded the case in the
+                # original run; shards start from the import-time module state, exactly like this fresh process)
+                global _MOD
+                _MOD = mod
+                r = mod.run_shard(body["shard"])
+                key = case_key(body["case"])
+                msgs = [v["msg"] for v in r.viols if case_key(v["case"]) == key]
+                if msgs:
+                    print("replay: the case passes alone; it fails after the preceding calls of its shard (history-dependent)")
         finally:
             if hasattr(mod, "teardown"):
                 mod.teardown()
